@@ -1,3 +1,4 @@
+import Btdht.Proofs.GuardTie.Node
 import Btdht.Model.Table
 /-!
 # C10 — Contacts are classified good / questionable / bad exactly per BEP5 timing
